@@ -215,16 +215,15 @@ def run(ctx):
     ctx.mc("ReconnectMC", ctx.pick("ReconnectMC.cfg", "ReconnectMC.thorough.cfg"))
     ctx.require_actions("ReconnectMC", ["Start", "Fail", "Made", "Lost", "Reset", "Stop", "Advance"])
     traces = []
-    depth = ctx.pick(4, 5)
     for cfg in EXH_CFGS:
-        d = depth - 1 if cfg["jit"] else depth          # the jitter alphabets are twice as wide
-        if ctx.quick and cfg not in EXH_CFGS[1:3]:
-            d -= 1
+        # ops after "start": quick 4 for two configurations, 3 elsewhere (2 with jitter: those alphabets are twice
+        # as wide); thorough one more everywhere
+        d = (4 if cfg in EXH_CFGS[1:3] else 2 if cfg["jit"] else 3) + ctx.pick(0, 1)
         ex = exhaustive(cfg, d)
         ctx.log("exhaustive histories of length %d for %s: %d" % (d + 1, cfg, len(ex)))
         traces += ex
     nexh = len(traces)
-    for _ in range(ctx.pick(2000, 40000)):
+    for _ in range(ctx.pick(2000, 12000)):
         cfg = random_cfg(ctx.rng)
         traces.append(run_history(cfg, random_ops(ctx.rng, cfg, ctx.rng.randint(4, 40))))
     ctx.extra["exhaustive_short_histories"] = nexh
